@@ -134,6 +134,11 @@ def _sections(draw, max_ticks):
         if mask != 0 and draw(st.integers(0, 9)) == 0:
             # an "open chord": the open-note line next to lane lines (anywhere among them)
             glines.insert(draw(st.integers(0, len(glines))), [tick, "N", OPEN, draw(ln_st)])
+        if mask != 0 and draw(st.integers(0, 7)) == 0:
+            # a lane line written twice, verbatim: the tick still names the same lanes
+            lane_lines = [g for g in glines if g[2] <= 4]
+            for _ in range(draw(st.sampled_from([1, 1, 2]))):
+                glines.insert(draw(st.integers(0, len(glines))), list(draw(st.sampled_from(lane_lines))))
         fl = draw(st.integers(0, 11))
         flags = []
         if fl in (8, 10) and g > 0:
